@@ -199,6 +199,9 @@ func checkC07(cx *Ctx, r *Report) {
 	}
 	// time check: every rejection is an unparseable bound or a bound on the wrong side
 	if fn := w.Func("provider.checkIfRequestTimeIsStillValid$1"); fn != nil {
+		if worker, _ := timeCheckWorker(fn); worker != nil {
+			fn = worker // the check proper, called with the bounds and the current time
+		}
 		aps, ok := fx.atomPaths(fn, 8192)
 		bad := ""
 		if !ok {
